@@ -169,17 +169,4 @@ def sampleHistory : List RegOp :=
    .addCategory ⟨.str 5, some 1, some [3], false, none, none, some 0, some 10, false, false, 7, none⟩,
    .addCategory ⟨.str 6, none, none, true, some 2, none, none, none, false, false, 0, some 5⟩]
 
-example : (outputs [] Registry.empty sampleHistory).map (fun o => match o with | .ok _ => true | .error _ => false)
-    = [true, true, false, true, true] := by decide +kernel
-example : Disciplined [] Registry.empty sampleHistory := by
-  unfold sampleHistory
-  simp only [Disciplined]
-  decide +kernel
-example : getBaseUnit (run [] Registry.empty sampleHistory) 1 = .ok 2 := by decide +kernel
-example : spec [] (run [] Registry.empty sampleHistory) (.createC 5) = .ok (.qvalue 5 3 0) := by decide +kernel
-example : spec [] (run [] Registry.empty sampleHistory) (.create 6 3) = .ok (.quantity 6 3) := by decide +kernel
-example : (step [] (run [] Registry.empty sampleHistory)
-    (.addCategory ⟨.str 5, some 9, none, true, none, none, none, none, false, false, 0, none⟩)).2 = .error .units := by
-  decide +kernel
-
 end Barril.Reg
